@@ -61,6 +61,11 @@ OMEN_DEAD = {'ngram': 2, 'alphabet': ['x', 'd', 'y'], 'ip': {'x': 0, 'd': 0, 'y'
              'cp': {'xx': 0, 'xy': 1, 'yx': 0, 'yy': 1}, 'ln': [10, 0, 1], 'keyspace': {1: 3, 2: 3, 3: 2}}
 
 
+# an initial n-gram on level 10 (one the trainer never saw at the start of a password): positions behind it inside levels 10 and 11
+OMEN_IP10 = {'ngram': 2, 'alphabet': ['x', 'y'], 'ip': {'x': 0, 'y': 10}, 'ep': {}, 'cp': {'xx': 0, 'xy': 1, 'yx': 0, 'yy': 1}, 'ln': [10, 0, 1],
+             'keyspace': {1: 3, 10: 3, 11: 5}, 'top_level': 14}
+
+
 def omen(m, probs):
     d = dict(m)
     d['omen_prob'] = probs
@@ -96,6 +101,7 @@ def specs(tier):
     add([('M', .6), ('D1', .4)], omen(OMEN_PCT, [(1, .25), (2, .25), (3, .125)]), "alphabet x % blank, levels 1=2 tied")
     add([('D1', .5), ('M', .5)], omen(OMEN_SYN, [(1, .5), (2, .25)]), "alphabet = ; #")
     add([('D1', .5), ('M', .5)], omen(OMEN_DEAD, [(1, .5), (2, .25)]), 'an initial n-gram without continuation between two others')
+    add([('D1', .5), ('M', .5)], omen(OMEN_IP10, [(1, .5), (10, .25), (11, .125)]), 'an initial n-gram on level 10, levels 10 and 11 listed')
     if tier == 'thorough':
         add([('M', .5), ('A1D1', .5)], omen(OMEN_Y, [(1, .25), (2, .0625)]), 'ngram2 three letters')
         add([('A1', .5), ('M', .25), ('D1D1', .25)], omen(OMEN_X, [(1, .5), (2, .25), (3, .125)]), 'three structures')
